@@ -765,13 +765,22 @@ def _snap(U, x):
         return ("V", float(x.value).hex(), si.sys_of(x.units.sys), si.dim_of(x.units.dim))
     if isinstance(x, U.UnitArray):
         return ("A", x.value.tobytes().hex(), si.sys_of(x.units.sys), si.dim_of(x.units.dim))
-    return ("N", repr(x))
+    return ("N", repr(float(x)) if not isinstance(x, bool) else repr(x))
 
 
 def impl_eval(U, node, path=""):
     t = node["t"]
     if t == "N":
-        return node["v"]
+        # plain numbers come as Python numbers or as the numpy scalars the documentation treats as numbers
+        # (deterministic choice so that a replay sees the same types)
+        v = node["v"]
+        import numpy as _np
+        pick = (hash(repr(v)) + len(path)) % 5
+        if pick == 0:
+            return _np.float64(v)
+        if pick == 1 and isinstance(v, int) and not isinstance(v, bool):
+            return _np.int64(v)
+        return v
     try:
         if t == "V" or t == "A":
             s, d = node["sys"], node["dim"]
